@@ -4,7 +4,7 @@ CONSTANTS
   TL = 2
   ML = 2
   MaxRetries = 1
-  Late = FALSE
+  Late = TRUE
   Repaired = TRUE
   Prefetch = 2
   FinishMode = "taken"
